@@ -625,3 +625,64 @@ def real_lxml_text(items, remove_comments):
         if isinstance(el.tag, str):
             out.append([H.get_text(el), H.get_tail(el)])
     return {"ok": out}
+
+
+# --------------------------------------------------------------------------
+# the whole native route for every kind of source (op c08.native_parse)
+# --------------------------------------------------------------------------
+def real_native_parse(d, kind, path=None):
+    """XmlParser(handler=XmlEventHandler).from_string / from_bytes / from_path / parse(...) with the
+    parser's start / end / register_namespace replaced by recorders: the real `from_*` chain, the real
+    `NodeParser.parse`, the real `XmlEventHandler.parse` dispatch and `process_context`."""
+    import pathlib
+
+    from xsdata.exceptions import ParserError
+    from xsdata.formats.dataclass.parsers import XmlParser
+    from xsdata.formats.dataclass.parsers.handlers import XmlEventHandler
+
+    text = print_dtree(d)
+    data = text.encode()
+    stub = StubParser(stores_of(d))
+
+    class Recording(XmlParser):
+        def start(self, clazz, queue, objects, qname, attrs, ns_map):
+            stub.start(clazz, queue, objects, qname, attrs, ns_map)
+
+        def end(self, queue, objects, qname, text, tail):
+            return stub.end(queue, objects, qname, text, tail)
+
+        def register_namespace(self, ns_map, prefix, uri):
+            stub.register_namespace(ns_map, prefix, uri)
+
+    p = Recording(handler=XmlEventHandler)
+    tmp = None
+    try:
+        if kind == "str":
+            p.from_string(text, object)
+        elif kind == "bytes":
+            p.from_bytes(data, object)
+        elif kind == "file":
+            p.parse(io.BytesIO(data), object)
+        elif kind == "path":
+            fd, tmp = tempfile.mkstemp(suffix=".xml")
+            os.write(fd, data)
+            os.close(fd)
+            p.from_path(pathlib.Path(tmp), object)
+        elif kind == "missing_path":
+            p.from_path(pathlib.Path(path), object)
+        elif kind == "et_tree":
+            p.parse(ET.ElementTree(ET.fromstring(data)), object)
+        elif kind == "et_element":
+            p.parse(ET.fromstring(data), object)
+        else:
+            raise ValueError(kind)
+    except ParserError:
+        pass  # nothing was bound: the recorders build no objects
+    except OSError:
+        return {"ok": None}
+    except IndexError:
+        stub.calls.append(["crash"])
+    finally:
+        if tmp:
+            os.unlink(tmp)
+    return {"ok": {"events": stub.calls, "ns_map": [[k, v] for k, v in p.ns_map.items()]}}
